@@ -564,7 +564,7 @@ func TestVerif_C27(t *testing.T) {
 	fullNames := []string{"a", "b", "a/b", "b/c", "b/secret", "a/c", ".", "../x", "@ABS", "a/../../x"}
 	fullTargets := []string{".", "..", "a", "b", "b/secret", "a/..", "b/..", "../..", "../secret", "@ABS"}
 	redNames := []string{"a", "b", "a/b", "b/c", "b/secret"}
-	redTargets := []string{".", "..", "a", "b/secret"}
+	redTargets := []string{".", "..", "a", "b/secret", "../secret"}
 	full := c27Alphabet(fullNames, fullTargets)
 	red := c27Alphabet(redNames, redTargets)
 	r.Info["alphabet_full_entries"] = len(full)
@@ -589,8 +589,8 @@ func TestVerif_C27(t *testing.T) {
 	} else {
 		syms := c27Only(full, "s")
 		fams = append(fams, family{"depth3/reduced", [][]c27Entry{red, red, red}})
-		fams = append(fams, family{"depth3/symlink(full),symlink(full),file|dir(full)", [][]c27Entry{syms, syms, c27Only(full, "fd")}})
-		r.Info["bounds"] = "all archives of <= 2 entries over the full alphabet; depth 3: all archives over the reduced alphabet, and symlink,symlink,(file|dir) over the full alphabet"
+		fams = append(fams, family{"depth3/symlink(full),symlink(full),file(reduced)", [][]c27Entry{syms, syms, c27Only(red, "f")}})
+		r.Info["bounds"] = "all archives of <= 2 entries over the full alphabet; depth 3: all archives over the reduced alphabet, and symlink(full),symlink(full),file(reduced names)"
 	}
 	n := 0
 	for _, f := range fams {
